@@ -527,8 +527,13 @@ def run(ctx):
         ctx.require(len(batch) >= n_gen * 0.6, "generator produced too few in-zone programs (%d of %d)" % (len(batch), n_gen))
 
         gen_cases = []          # (label, files, init_out)
+        unprintable = 0
         for i, prog, exp in batch:
-            files = prog.files()
+            try:
+                files = prog.files()
+            except (TypeError, KeyError, IndexError, AttributeError):
+                unprintable += 1         # the generator built a tree its printer cannot print: not a program at all
+                continue
             init_out = None
             if i % 5 == 2:
                 k = 100 + i
@@ -537,6 +542,8 @@ def run(ctx):
                     files = dict(files, **{"main.nano": t})
                     init_out = ("%s %d\n" % (INIT_MARK, k)).encode()
             gen_cases.append(("generated program %d%s" % (i, " (+printing initialiser)" if init_out else ""), files, init_out))
+        ctx.require(unprintable <= max(2, len(batch) // 100), "the generator's printer failed on %d programs" % unprintable)
+        ev["generator_programs_unprintable"] = unprintable
         hand_cases = [("hand-written %s" % name, files, init_out) for name, (files, init_out) in sorted(hand.items())]
 
         # ---- (a) probe ------------------------------------------------------------------------------
